@@ -327,6 +327,19 @@ func TestProp(t *testing.T) {
 			}
 		})
 	}
+	// the exported signature tests that take bytes directly: every prefix of the TIFF signatures and a few other starts
+	if complete {
+		for _, base := range []string{"II*\x00\x08\x00\x00\x00", "MM\x00*\x00\x00\x00\x08", "IIU\x00\x18\x00\x00\x00", "\xff\xd8\xff\xe1", "\x00\x00\x00\x18ftyp"} {
+			for n := 0; n <= len(base) && complete; n++ {
+				c := Case{Req: worker.Req{Entry: "ItHelpers", Input: []byte(base[:n])}, Origin: "signature-helpers-on-short-input"}
+				if f := eval(c); f != nil {
+					if pbt.Report(t, rec, chk.Name, c, f) {
+						complete = false
+					}
+				}
+			}
+		}
+	}
 	// a caller's bufio.Reader that has been read before: the file starts 4040..4096 bytes into the 4 KiB buffer (readers that
 	// take an io.Reader adopt such a reader); ftyp boxes of 8..28 bytes, and every small well-formed file
 	if complete && os.Getenv("VERIF_SKIP_ENUM") == "" {
